@@ -396,6 +396,8 @@ def run(ctx):
         "compared: InputFile.data (numbers by value, strings, booleans, None, lists element-wise, entities by class + uid + name, workspaces by resolved file path) and the `enabled` member of every form (absent == true, the documented default); other members (vmin, tooltip, choiceList, ...) are not compared: the statement is silent about them",
         "identifier -> entity equivalence: for object / group / data / data-or-value forms a uuid (or uuid string) held before writing equals the entity with that uid after reading ('identifiers promoted to the same workspace entities'); for geoh5 / workspace a path equals the Workspace re-opened on that path; for string-valued parameters (string, choice, file, drillhole-group data, title, ...) no such equivalence: a string must come back as the same string",
         "fixture workspace: Points P (data a, b, property group pg), Points Q (data c), ContainerGroup G, with forced name collisions (Q and G are also named 'P', c is also named 'a') so that identity must go by uid; 'full' adds DrillholeGroup DHG with one drillhole and one interval data; integers up to 2**63-1 (Python ints beyond int64 are outside the lattice: 2**64 makes write_ui_json raise TypeError in inf2str)",
+        "documented normalisation, not compared: an optional parameter with enabled true whose data is None (only acceptable when an unmet dependency makes it non-required) is written with enabled false by the update_enabled rule of InputFile.validation_options ('the enabled status of the ui_json will be updated based on the value provided'); data is None on both sides. The opposite direction (false -> true) and every change of enabled with a value present are compared",
+        "every file the check makes the library write (ui.json files, and the *.geoh5 files that Workspace(path, mode='r') creates for missing paths found by numify) lands in a per-case directory under mc.world.scratch(): each case runs with that directory as working directory",
         "witnesses of group members are coarse on purpose (one class per leader state): all of them trace back to set_enabled() of the leader overwriting the members' enabled members",
     ]
 
